@@ -567,6 +567,16 @@ pub fn run() -> i32 {
                 }
             }
         }
+        for case in 0..=8u8 {
+            for bits in 0..8u8 {
+                crate::sym::load(vec![vec![case], vec![bits]]);
+                n += 1;
+                if std::panic::catch_unwind(|| crate::node::c06_nested_operators()).is_err() {
+                    c11_bad += 1;
+                    eprintln!("SELFTEST-FAIL: c06_nested_operators: case={} bits={}", case, bits);
+                }
+            }
+        }
         for code in 0..=5u8 {
             crate::sym::load(vec![vec![code]]);
             n += 1;
